@@ -483,7 +483,7 @@ def ed_sign(seed, msg, ph=None, ctx=None):
     return R + to32(S)
 
 
-def ed_verify_predicate(Abytes, msg, sig, strict=False, ph=None, ctx=None, legacy=False):
+def ed_verify_predicate(Abytes, msg, sig, strict=False, ph=None, ctx=None, legacy=False, hram=None):
     """dalek-documented verification predicate (cofactorless, R compared as bytes)."""
     if len(sig) != 64 or len(Abytes) != 32:
         return False
@@ -510,7 +510,7 @@ def ed_verify_predicate(Abytes, msg, sig, strict=False, ph=None, ctx=None, legac
     else:
         dom = dom2(1, ctx or b"")
         m = ph
-    k = le(sha512(dom, Rb, Abytes, m)) % L
+    k = le(sha512(dom, Rb, Abytes, m)) % L if hram is None else hram(Rb, Abytes, m) % L
     # [S]B - [k]A  (S may be >= L in legacy mode: use integer)
     sB = base_mul_ext(S)
     kA = ext_mul(k, ext_from_aff(aff_neg(A)))
